@@ -167,6 +167,7 @@ func init() {
 	})
 	Impl("uuid.unmarshal", func(a []Val) Val {
 		var u uuid.UUID
+		dirty(&u)
 		n, err := u.Unmarshal(exact(a[0].B))
 		if err != nil {
 			return VErr()
@@ -192,6 +193,7 @@ func init() {
 	})
 	Impl("v1.unmarshal", func(a []Val) Val {
 		var u uuid_v1.UUIDv1
+		dirty(&u)
 		n, err := u.Unmarshal(exact(a[0].B))
 		if err != nil {
 			return VErr()
@@ -200,6 +202,7 @@ func init() {
 	})
 	Impl("v1.from_bytes", func(a []Val) Val {
 		var u uuid_v1.UUIDv1
+		dirty(&u)
 		if err := u.FromBytes(exact(a[0].B)); err != nil {
 			return VErr()
 		}
@@ -231,6 +234,7 @@ func init() {
 	})
 	Impl("v2.unmarshal", func(a []Val) Val {
 		var u uuid_v2.UUIDv2
+		dirty(&u)
 		n, err := u.Unmarshal(exact(a[0].B))
 		if err != nil {
 			return VErr()
@@ -239,6 +243,7 @@ func init() {
 	})
 	Impl("v2.from_bytes", func(a []Val) Val {
 		var u uuid_v2.UUIDv2
+		dirty(&u)
 		if err := u.FromBytes(exact(a[0].B)); err != nil {
 			return VErr()
 		}
@@ -270,6 +275,7 @@ func init() {
 	})
 	Impl("v8.unmarshal", func(a []Val) Val {
 		var u uuid_v8.UUIDv8
+		dirty(&u)
 		n, err := u.Unmarshal(exact(a[0].B))
 		if err != nil {
 			return VErr()
@@ -278,6 +284,7 @@ func init() {
 	})
 	Impl("v8.from_bytes", func(a []Val) Val {
 		var u uuid_v8.UUIDv8
+		dirty(&u)
 		if err := u.FromBytes(exact(a[0].B)); err != nil {
 			return VErr()
 		}
@@ -330,6 +337,7 @@ func init() {
 	// generic UUID, binary: args (16 bytes)
 	Oracle("c13.uuid.bin", func(a []Val) (string, string) {
 		var u uuid.UUID
+		dirty(&u)
 		n, err := u.Unmarshal(exact(a[0].B))
 		if err != nil || n != 16 {
 			return "C13/uuid-bin-reject", fmt.Sprintf("Unmarshal(%x) = %d, %v", a[0].B, n, err)
@@ -352,6 +360,7 @@ func init() {
 			return "C13/uuid-fields", fmt.Sprintf("Marshal: %x %v", b, err)
 		}
 		var w uuid.UUID
+		dirty(&w)
 		if _, err := w.Unmarshal(exact(b)); err != nil || w != *u {
 			return "C13/uuid-fields", fmt.Sprintf("Unmarshal(Marshal(%+v)) = %+v, %v", *u, w, err)
 		}
@@ -407,6 +416,7 @@ func init() {
 			return "C13/v1-fields", fmt.Sprintf("Marshal: %x %v", b, err)
 		}
 		var w uuid_v1.UUIDv1
+		dirty(&w)
 		if _, err := w.Unmarshal(exact(b)); err != nil {
 			return "C13/v1-fields", fmt.Sprintf("Unmarshal(%x): %v", b, err)
 		}
@@ -418,6 +428,7 @@ func init() {
 	// v1 from arbitrary bytes: args (16 bytes with version nibble 1)
 	Oracle("c13.v1.rfc", func(a []Val) (string, string) {
 		var w uuid_v1.UUIDv1
+		dirty(&w)
 		if err := w.FromBytes(exact(a[0].B)); err != nil {
 			return "C13/v1-reject", fmt.Sprintf("FromBytes(%x): %v", a[0].B, err)
 		}
@@ -440,6 +451,7 @@ func init() {
 			return "C13/v1-rfc-time", fmt.Sprintf("SetTime(%v) marshals to %x whose RFC 4122 time is %v", t, b, time.Unix(sec, nsec))
 		}
 		var w uuid_v1.UUIDv1
+		dirty(&w)
 		w.FromBytes(b)
 		if !w.GetTime().Equal(want) {
 			return "C13/v1-rfc-time", fmt.Sprintf("GetTime() after round trip = %v, want %v", w.GetTime(), want)
@@ -502,6 +514,7 @@ func init() {
 			return "C13/v2-fields", fmt.Sprintf("Marshal: %x %v", b, err)
 		}
 		var w uuid_v2.UUIDv2
+		dirty(&w)
 		if _, err := w.Unmarshal(exact(b)); err != nil {
 			return "C13/v2-fields", fmt.Sprintf("Unmarshal(%x): %v", b, err)
 		}
@@ -527,6 +540,7 @@ func init() {
 	})
 	Oracle("c13.v2.bin", func(a []Val) (string, string) {
 		var w uuid_v2.UUIDv2
+		dirty(&w)
 		if err := w.FromBytes(exact(a[0].B)); err != nil {
 			return "C13/v2-reject", fmt.Sprintf("FromBytes(%x): %v", a[0].B, err)
 		}
@@ -553,6 +567,7 @@ func init() {
 			return "C13/v8-fields", fmt.Sprintf("Marshal: %x %v", b, err)
 		}
 		var w uuid_v8.UUIDv8
+		dirty(&w)
 		if _, err := w.Unmarshal(exact(b)); err != nil || w.Data != u.Data || w.UUID.Variant != u.UUID.Variant {
 			return "C13/v8-fields", fmt.Sprintf("fields %v -> %x -> %v (%v)", v8Val(u), b, v8Val(&w), err)
 		}
@@ -563,6 +578,7 @@ func init() {
 	})
 	Oracle("c13.v8.bin", func(a []Val) (string, string) {
 		var w uuid_v8.UUIDv8
+		dirty(&w)
 		if err := w.FromBytes(exact(a[0].B)); err != nil {
 			return "C13/v8-reject", fmt.Sprintf("FromBytes(%x): %v", a[0].B, err)
 		}
